@@ -471,4 +471,107 @@ class MatrixEdgesArm(Arm):
                 "cfg": case["cfg"]}
 
 
-ARMS = [PopArm(), MatrixEdgesArm()]
+class AdaptiveFormsArm(Arm):
+    """the two forms under an adaptive solver: the population circuit and the explicit network of the same model (one node
+    per unit, one scalar edge per non-zero entry, built as ordinary PyRates templates) are both run with scipy RK45 at
+    rtol 1e-9 and must agree (2e-6 relative to the trajectory scale); delays without spread mean hist(t - d) on scalar
+    edges (C10)"""
+    name = "adaptive_forms"
+    budget = {"quick": 160, "thorough": 2000}
+    min_per_shard = 6
+    required_labels = ("matrix", "two_populations")
+
+    def strategy(self, ctx):
+        @st.composite
+        def case(draw):
+            c = draw(pop_case())
+            for cn in c["pspec"]["conns"]:
+                cn["coupling"] = None
+                cn["sp"] = None
+                if cn.get("d") is not None:
+                    cn["d"] = draw(st.sampled_from([0.05, 0.1, 0.2]))
+                    if "F-16k" in getattr(ctx, "active_findings", ()):
+                        # (while the finding is listed its shape is not generated: the undelayed forms are compared)
+                        cn["d"] = None
+            c["cfg"] = {"dt": 0.01, "steps": draw(st.integers(20, 40)), "solver": "scipy", "vectorize": False}
+            return c
+        return case()
+
+    def run(self, case, ctx):
+        from .. import isolate
+        from ..model import build_circuit
+        res = CaseResult()
+        ps, cfg = case["pspec"], case["cfg"]
+        ex_spec = expand(ps)
+        ex = excluded_by("C16", dict(case, spec=ex_spec, cfg=dict(cfg)), ctx)
+        if ex:
+            res.excluded = ex
+            return res
+        lab = set()
+        for c in ps["conns"]:
+            lab.add("matrix" if isinstance(c["W"], list) else "scalar_weight")
+            if c.get("d") is not None:
+                lab.add("delay")
+        if len(ps["pops"]) >= 2:
+            lab.add("two_populations")
+        res.labels = sorted(lab)
+        res.nontrivial = any(isinstance(c["W"], list) and len(c["W"]) * len(c["W"][0]) >= 4 for c in ps["conns"])
+        dt, steps = cfg["dt"], cfg["steps"]
+        T = steps * dt
+        rm = RefModel(ex_spec)
+        kw = dict(solver="scipy", method="RK45", rtol=1e-9, atol=1e-11, verbose=False, clear=True, in_place=False,
+                  float_precision="float64")
+        try:
+            isolate.reset()
+            with warnings.catch_warnings():
+                warnings.simplefilter("ignore")
+                dfe = build_circuit(ex_spec, name="net").run(simulation_time=T, step_size=dt, vectorize=False,
+                                                             outputs={f"v{i}": p for i, p in enumerate(rm.state_paths)}, **kw)
+            ref = {p: np.asarray(dfe[f"v{i}"], dtype=float).ravel() for i, p in enumerate(rm.state_paths)}
+        except HarnessError:
+            raise
+        except Exception as e:
+            res.rejected = f"explicit-network-raises:{type(e).__name__}"
+            return res
+        allv = np.concatenate(list(ref.values()))
+        if not np.all(np.isfinite(allv)) or np.max(np.abs(allv)) > 1e4:
+            res.rejected = "reference not benign"
+            return res
+        outputs, expect = {}, {}
+        k = 0
+        for name, nt, n, params in ps["pops"]:
+            o = ps["ntypes"][nt]["ops"][0]
+            for v in ps["ops"][o]["vars"]:
+                if v[1] == "state":
+                    outputs[f"k{k}"] = f"{name}/{o}/{v[0]}"
+                    expect[f"k{k}"] = [ref[f"{name}_u{i}/{o}/{v[0]}"] for i in range(n)]
+                    k += 1
+        try:
+            isolate.reset()
+            with warnings.catch_warnings():
+                warnings.simplefilter("ignore")
+                df = build_population_circuit(ps).run(simulation_time=T, step_size=dt, outputs=dict(outputs), **kw)
+        except HarnessError:
+            raise
+        except Exception as e:
+            res.violate(exc_bucket("population-run-raises:scipy", e),
+                        f"the explicit network runs under scipy, the population form raised: {short_exc(e)}")
+            return res
+        scale = 1.0 + float(np.max(np.abs(allv)))
+        for key, trajs in expect.items():
+            n = len(trajs)
+            for i in range(n):
+                colv = np.asarray(df[(key, i)] if n > 1 else (df[key] if key in df.columns else df[(key, 0)]), dtype=float)
+                colv = colv.reshape(len(colv), -1)[:, 0] if colv.ndim > 1 else colv
+                if colv.shape != trajs[i].shape or np.max(np.abs(colv - trajs[i])) > 2e-6 * scale:
+                    dev = float(np.max(np.abs(colv - trajs[i]))) / scale if colv.shape == trajs[i].shape else float("nan")
+                    res.violate("forms-differ:scipy", f"{outputs[key]} unit {i}: population form and explicit network differ "
+                                                      f"under scipy (max dev {dev:.3g} of the scale); conns "
+                                                      f"{[(c['s'], c['t'], np.shape(c['W']), c.get('d')) for c in ps['conns']]}")
+                    return res
+        return res
+
+    sample = MatrixEdgesArm.sample
+
+
+ARMS = [PopArm(), MatrixEdgesArm(), AdaptiveFormsArm()]
